@@ -4,6 +4,8 @@ package main
 import (
 	"errors"
 	"fmt"
+	"time"
+	_ "time/tzdata"
 
 	"go.lstv.dev/util/date"
 	"verif/mc"
@@ -19,11 +21,21 @@ type ymd struct {
 func (a ymd) date() date.Date { return date.New(int(a.Y), date.Month(a.M), a.D) }
 func (a ymd) ord() int64      { return oracle.Ordinal(a.Y, a.M, a.D) }
 
+var defaultLocal = time.Local
+
+func setup(a arg) {
+	time.Local = defaultLocal
+	if loc, err := time.LoadLocation(a.Zone); err == nil && a.Zone != "" {
+		time.Local = loc
+	}
+}
+
 type arg struct {
-	From     *ymd  `json:"from"`
-	To       *ymd  `json:"to"`
-	Probes   []ymd `json:"probes"`
-	Scribble ymd   `json:"scribble"` // value written into the caller's variables after construction
+	Zone     string `json:"time_local,omitempty"` // the process's local zone during the call ("" = unchanged)
+	From     *ymd   `json:"from"`
+	To       *ymd   `json:"to"`
+	Probes   []ymd  `json:"probes"`
+	Scribble ymd    `json:"scribble"` // value written into the caller's variables after construction
 }
 
 func probe(a arg) (string, string) {
@@ -115,7 +127,8 @@ func probeHist(h histArg) (string, string) {
 func main() {
 	mc.Main("C15", "all (from, to) pairs over a date window x 4 nil/non-nil shapes, each probed with every date of the window, against day ordinals; "+
 		"non-trivial = both bounds given and they differ in month or year", func(r *mc.Run) {
-		p := mc.NewProbe(r, "filter", nil, probe)
+		p := mc.NewProbe(r, "filter", setup, probe)
+		r.Reset = func() { time.Local = defaultLocal }
 		r.Assume("reference: ordinal comparison; error iff both bounds given and from > to")
 		// window: 2023-12-15 .. 2024-03-05 (crosses year, leap February) plus boundary dates
 		var win []ymd
@@ -178,6 +191,31 @@ func main() {
 				p.Do(w, arg{Probes: win, Scribble: ymd{2024, 2, 29}})
 			})
 		})
+		for _, z := range mc.Zones[:4] {
+			z := z
+			r.Phase(fmt.Sprintf("time.Local = %s: all (from,to) pairs of a 44-date window around days that have no local midnight in that zone, all probes", z), "complete for the window", func() {
+				setup(arg{Zone: z})
+				var zw []ymd
+				for _, c := range [][3]int64{{2011, 12, 30}, {1994, 12, 31}, {1993, 8, 21}, {2018, 11, 4}} {
+					c0 := oracle.Ordinal(c[0], int(c[1]), int(c[2]))
+					for n := c0 - 5; n <= c0+5; n++ {
+						y, m, d := oracle.FromOrdinal(n)
+						zw = append(zw, ymd{y, m, d})
+					}
+				}
+				r.Parallel(int64(len(zw)), 1, func(w *mc.W, i int64) {
+					from := zw[i]
+					for j := range zw {
+						to := zw[j]
+						w.Points(int64(len(zw)))
+						p.Do(w, arg{Zone: z, From: &from, To: &to, Probes: zw, Scribble: zw[(int(i)+j+3)%len(zw)]})
+					}
+					p.Do(w, arg{Zone: z, From: &from, Probes: zw, Scribble: zw[0]})
+					p.Do(w, arg{Zone: z, To: &from, Probes: zw, Scribble: zw[1]})
+				})
+				time.Local = defaultLocal
+			})
+		}
 		a, b := ymd{2024, 2, 29}, ymd{2024, 3, 1}
 		r.Sample("triple", arg{From: &a, To: &b, Probes: []ymd{{2024, 2, 28}, {2024, 2, 29}, {2024, 3, 1}, {2024, 3, 2}}, Scribble: ymd{2000, 1, 1}})
 	})
